@@ -13,6 +13,8 @@ pub struct Workload {
     pub mode: String,
     pub threads: usize,
     pub sched: Option<Sched>,
+    /// --no-messages: diagnostics are suppressed, the exit status is not.
+    pub no_messages: bool,
 }
 
 const MODES: [&str; 7] = ["standard", "count", "files-with-matches", "quiet", "files", "json", "context"];
@@ -26,12 +28,16 @@ pub fn gen_workload(sub: u64) -> Workload {
     let mode = MODES[rng.below(MODES.len())].to_string();
     let threads = if rng.chance(1, 2) { 1 } else { 2 + rng.below(3) };
     let sched = if threads > 1 { Some(gen_sched(&mut rng)) } else { None };
-    Workload { corpus, mode, threads, sched }
+    let no_messages = rng.chance(1, 4);
+    Workload { corpus, mode, threads, sched, no_messages }
 }
 
 fn base_args(w: &Workload) -> Vec<String> {
     let mut a: Vec<String> = vec!["--no-config".into(), "--color=never".into(), "--no-messages".into()];
-    a.pop(); // messages stay on: they are part of the contract
+    a.pop();
+    if w.no_messages {
+        a.push("--no-messages".into());
+    }
     a.push(format!("-j{}", w.threads));
     if w.threads == 1 {
         a.push("--sort=path".into());
@@ -114,6 +120,9 @@ pub fn run_workload(sub: u64, only_leg: Option<&str>, acc: &mut Acc, ctx: &Ctx, 
     let want = |leg: &str| only_leg.map_or(true, |l| l == leg);
     acc.mix.inc(&format!("mode:{}", w.mode));
     acc.mix.inc(if w.threads == 1 { "single-threaded" } else { "multi-threaded(scheduled)" });
+    if w.no_messages {
+        acc.mix.inc("--no-messages");
+    }
     let line_mode = matches!(w.mode.as_str(), "standard" | "count" | "files-with-matches" | "files");
 
     // ---- fault-free reference ------------------------------------------------
@@ -180,7 +189,7 @@ pub fn run_workload(sub: u64, only_leg: Option<&str>, acc: &mut Acc, ctx: &Ctx, 
             let mut fs = BTreeSet::new();
             fs.insert(victim.clone());
             // diagnostic naming the file
-            let names = String::from_utf8_lossy(&got.stderr).contains(&format!("w/{victim}"));
+            let names = if w.no_messages { got.stderr.is_empty() } else { String::from_utf8_lossy(&got.stderr).contains(&format!("w/{victim}")) };
             if !names {
                 acc.violation("C15", "faulted-file-not-reported", format!("open of w/{victim} failed (errno {errno}) but stderr does not name it: {:?}", show(&got.stderr)), sub, replay_body(sub, &w, "open-fault", &spec, Some(&reference), &got, json!({"victim": victim})));
             }
@@ -212,7 +221,7 @@ pub fn run_workload(sub: u64, only_leg: Option<&str>, acc: &mut Acc, ctx: &Ctx, 
         let fired = got.fired("opendir_err");
         acc.faults.add("opendir-EACCES", fired);
         if fired > 0 {
-            if !String::from_utf8_lossy(&got.stderr).contains(&format!("w/{victim}")) {
+            if w.no_messages != got.stderr.is_empty() || (!w.no_messages && !String::from_utf8_lossy(&got.stderr).contains(&format!("w/{victim}"))) {
                 acc.violation("C15", "faulted-dir-not-reported", format!("opendir of w/{victim} failed but stderr does not name it: {:?}", show(&got.stderr)), sub, replay_body(sub, &w, "opendir-fault", &spec, Some(&reference), &got, json!({"victim": victim})));
             }
             let mut ds = BTreeSet::new();
@@ -255,7 +264,7 @@ pub fn run_workload(sub: u64, only_leg: Option<&str>, acc: &mut Acc, ctx: &Ctx, 
                 acc.violation("C15", "eintr-changed-outcome", format!("EINTR on read {j} of w/{victim}: exit {} stderr {:?}", got.code, show(&got.stderr)), sub, replay_body(sub, &w, "read-fault", &spec, Some(&ref2), &got, json!({"victim": victim, "read_index": j})));
             }
         } else if got.fired("read_err") > 0 {
-            if !String::from_utf8_lossy(&got.stderr).contains(&format!("w/{victim}")) {
+            if w.no_messages != got.stderr.is_empty() || (!w.no_messages && !String::from_utf8_lossy(&got.stderr).contains(&format!("w/{victim}"))) {
                 acc.violation("C15", "faulted-file-not-reported", format!("read {j} of w/{victim} failed with EIO but stderr does not name it: {:?}", show(&got.stderr)), sub, replay_body(sub, &w, "read-fault", &spec, Some(&ref2), &got, json!({"victim": victim, "read_index": j})));
             }
             if got.code != 2 {
@@ -318,7 +327,7 @@ pub fn run_workload(sub: u64, only_leg: Option<&str>, acc: &mut Acc, ctx: &Ctx, 
         acc.evals += 1;
         digest = digest_out(digest, &got);
         acc.faults.inc("dangling-symlink-followed");
-        let names = String::from_utf8_lossy(&got.stderr).contains("dangling.txt");
+        let names = if w.no_messages { got.stderr.is_empty() } else { String::from_utf8_lossy(&got.stderr).contains("dangling.txt") };
         if !names || got.code != 2 {
             acc.violation("C15", "dangling-symlink-with-follow", format!("-L with a dangling symlink: exit {} (expected 2), stderr {:?}", got.code, show(&got.stderr)), sub, replay_body(sub, &w, "dangling-follow", &spec, Some(&reference), &got, json!(null)));
         }
@@ -386,9 +395,12 @@ pub fn run_workload(sub: u64, only_leg: Option<&str>, acc: &mut Acc, ctx: &Ctx, 
             if !got.stderr.is_empty() {
                 acc.violation("C15", "epipe-diagnostic", format!("stdout closed after {k} bytes: stderr not empty: {:?}", show(&got.stderr)), sub, replay_body(sub, &w, "epipe", &spec, Some(&reference), &got, detail.clone()));
             }
-            if got.code != 0 {
+            // Status 0 when results were being delivered; when the uninterrupted
+            // run finds nothing (its only output is e.g. the JSON summary) the
+            // status stays 1 - "nothing matched" - whether or not the pipe closed.
+            if got.code != reference.code {
                 let class = if w.threads == 1 && w.mode != "files" { "epipe-status:single-threaded-search" } else if w.threads == 1 { "epipe-status:single-threaded-files" } else { "epipe-status:multi-threaded" };
-                acc.violation("C15", class, format!("stdout closed after {k} bytes: exit {} (a closed pipe must end the run with status 0)", got.code), sub, replay_body(sub, &w, "epipe", &spec, Some(&reference), &got, detail.clone()));
+                acc.violation("C15", class, format!("stdout closed after {k} bytes: exit {} (the uninterrupted run exits {}; a closed pipe must not turn that into a failure)", got.code, reference.code), sub, replay_body(sub, &w, "epipe", &spec, Some(&reference), &got, detail.clone()));
             }
             // Promptness as bounded work. Single-threaded: the loop breaks on
             // the failed write, no further file may be opened. Multi-threaded:
